@@ -158,7 +158,7 @@ impl<T: Observe> Observe for darling::Result<T> {
     fn observe(&self) -> Val {
         match self {
             Ok(x) => Val::Variant("Result".into(), "Ok".into(), vec![("0".into(), x.observe())]),
-            Err(e) => Val::Variant("Result".into(), "Err".into(), vec![("0".into(), Val::Str(e.to_string()))]),
+            Err(e) => Val::Variant("Result".into(), "Err".into(), vec![("0".into(), Val::Int(e.len() as i64))]),
         }
     }
 }
